@@ -215,6 +215,21 @@ theorem C06_remove_leaves_cell {sp : Space} (hsp : SpaceOK sp) {s : State} (h : 
     | cell => exact (mobile .cell hk (by simp)).1
     | grid2d => exact (mobile .grid2d hk (by simp)).1
 
+
+/-- `Grid2DMovingAgent.DIRECTION_MAP` as the source has it now (AST literal = the running class attribute):
+    every name maps to a Moore offset, the cardinal names to the unit steps of the row/column convention
+    (`up` decreases the first coordinate), and opposite names to opposite vectors. -/
+theorem C06_direction_map_generated :
+    Gen.directionMap = Gen.directionProbe ∧
+    (∀ p ∈ Gen.directionMap, [p.2.1, p.2.2] ∈ mooreOffsets 2) ∧
+    dirVec "up" = some [-1, 0] ∧ dirVec "Down" = some [1, 0] ∧ dirVec "LEFT" = some [0, -1] ∧
+    dirVec "right" = some [0, 1] ∧ dirVec "back" = none ∧
+    (∀ p ∈ [("n", "s"), ("e", "w"), ("ne", "sw"), ("nw", "se"), ("north", "south"),
+        ("east", "west"), ("up", "down"), ("left", "right"), ("upleft", "downright"), ("upright", "downleft"),
+        ("northeast", "southwest"), ("northwest", "southeast")],
+      (dirVec p.1).map negv = dirVec p.2) := by
+  refine ⟨gen_directions.1, gen_directions.2, by decide, by decide, by decide, by decide, by decide, by decide⟩
+
 /-- The bookkeeping behind the theorems above, for every history: the full invariant of the model. -/
 theorem C06_invariant_all_histories {sp : Space} (hsp : SpaceOK sp) (ops : List Op) :
     Inv sp (run sp (init sp) ops) := run_inv hsp.closed (inv_init sp) ops
